@@ -67,9 +67,17 @@ int main(int argc, char **argv)
             yypop_buffer_state(%(S1)s); }
         else if (op[0] == 'F') { fscanf(ops, "%%d", &id); yy_flush_buffer(h[id] %(S)s); }
         else if (op[0] == 'D') { fscanf(ops, "%%d", &id); yy_delete_buffer(h[id] %(S)s); h[id] = 0; if (sp > 0 && stack[sp - 1] == id) stack[sp - 1] = -1; }
+        else if (op[0] == 'X') { /* delete the user's own buffers that are not on the stack, destroy, start afresh */
+            for (i = 0; i < MAXB; i++) { int j, onstack = 0; for (j = 0; j < sp; j++) if (stack[j] == i) onstack = 1;
+                if (h[i] && !onstack) { yy_delete_buffer(h[i] %(S)s); } h[i] = 0; }
+            sp = 0; %(destroy)s
+            for (i = 0; i < MAXB; i++) { if (mem[i]) free(mem[i]); mem[i] = 0; if (fh[i]) fclose(fh[i]); fh[i] = 0; }
+            printf("X\n"); }
         else if (op[0] == 'L') { fscanf(ops, "%%d", &k);
             for (i = 0; i < k; i++) { g_cur = sp > 0 ? stack[sp - 1] : -1; v = yylex(%(S1)s); if (v == 0) { printf("Z %%d\n", g_cur); break; } } }
     }
+    for (i = 0; i < MAXB; i++) { int j, onstack = 0; for (j = 0; j < sp; j++) if (stack[j] == i) onstack = 1;
+        if (h[i] && !onstack) { yy_delete_buffer(h[i] %(S)s); h[i] = 0; } }
     %(fini)s
     for (i = 0; i < MAXB; i++) { if (mem[i]) free(mem[i]); if (fh[i]) fclose(fh[i]); }
     fclose(ops);
@@ -123,7 +131,9 @@ def make_spec(prog, rng, backend, lineno, alloc="", extra_options=None, fini_ext
         out.append("<*>.|\\n\t{ %s; return 1; }" % (tokm % (nrules + 1)))
     out.append("%%")
     out.append(EV + MAIN % {'S': S, 'S1': S1, 'decl': decl, 'init': init, 'fini': fini + fini_extra,
-                            'BT': 'yybuffer' if backend == 'c99' else 'YY_BUFFER_STATE'})
+                            'BT': 'yybuffer' if backend == 'c99' else 'YY_BUFFER_STATE',
+                            'destroy': ('yylex_destroy(); yyin = fopen("/dev/null", "rb");' if backend == 'nr' else
+                                        'yylex_destroy(s); if (yylex_init(&s)) return 3; yyset_in(fopen("/dev/null", "rb"), s);')})
     return "\n".join(out) + "\n"
 
 
@@ -237,6 +247,8 @@ def ops_text(ops, workdir):
             lines.append("N %s" % os.path.join(workdir, "f%d.bin" % o[1]))
         elif o[0] in ('W', 'P', 'F', 'D', 'L'):
             lines.append("%s %d" % (o[0], o[1]))
+        elif o[0] == 'X':
+            lines.append("X")
         else:
             lines.append(o[0])
     return "\n".join(lines) + "\n"
@@ -279,7 +291,7 @@ def parse_events(out, bol_obs, lineno):
             evs.append(tuple(e))
         elif p[0] == 'Z' and len(p) == 2:
             evs.append(('Z', int(p[1])))
-        elif p[0] in ('END', 'NOBUF', 'NULLBUF'):
+        elif p[0] in ('END', 'NOBUF', 'NULLBUF', 'X'):
             evs.append((p[0],))
         elif p[0] == 'N':
             evs.append(('N', int(p[1])))
@@ -328,12 +340,22 @@ def eval_buf_case(flex, workdir, case, cc_extra=None, env=None, alloc="", fini_e
                 f.write(bytes(w))
         with open(os.path.join(hd, "ops.txt"), "w") as f:
             f.write(ops_text(ops, hd))
-        rc, out, err = run([os.path.join(workdir, "s.exe"), os.path.join(hd, "ops.txt")], timeout=30, env=env)
+        henv = env
+        if env and 'LEDGER' in env:
+            henv = dict(env, LEDGER=os.path.join(hd, "ledger.txt"))
+        rc, out, err = run([os.path.join(workdir, "s.exe"), os.path.join(hd, "ops.txt")], timeout=30, env=henv)
         runs.append((rc, parse_events(out, bol_obs, lineno), err.decode(errors="replace")))
         if collect is not None:
             collect.append((hi, rc, out, err))
-        queries.append("(buffers %d %s)" % (1 if lineno else 0, ops_sx(ops, files)))
-    sx = "(case %s\n(queries (%s)))\n" % (scanner.sx_program(mprog), "\n".join(queries))
+        segs = [[]]
+        for o in ops:
+            if o[0] == 'X':
+                segs.append([])
+            else:
+                segs[-1].append(o)
+        queries.append((len(segs), ["(buffers %d %s)" % (1 if lineno else 0, ops_sx(sg, files)) for sg in segs]))
+    flatq = [q for _, qs in queries for q in qs]
+    sx = "(case %s\n(queries (%s)))\n" % (scanner.sx_program(mprog), "\n".join(flatq))
     rc, out, err = scanner.run_driver(sx, workdir, timeout=120)
     if rc == "timeout":
         res['problems'].append(('inconclusive', 'driver timeout'))
@@ -342,8 +364,14 @@ def eval_buf_case(flex, workdir, case, cc_extra=None, env=None, alloc="", fini_e
         res['problems'].append(('driver-error', "rc=%s %s" % (rc, err[:300])))
         return res
     chunks = out.split("END\n")
+    ci = 0
     for hi, ((ops, files), (rrc, revs, rerr)) in enumerate(zip(case['histories'], runs)):
-        mevs = parse_events(chunks[hi].encode(), bol_obs, lineno) if hi < len(chunks) else []
+        mevs = []
+        for si in range(queries[hi][0]):
+            if si:
+                mevs.append(('X',))
+            mevs += parse_events(chunks[ci].encode(), bol_obs, lineno) if ci < len(chunks) else []
+            ci += 1
         mevs.append(('END',))
         ok = rrc == 0 and revs == mevs
         res['streams'].append({'input': str(hi), 'sc': 1, 'real': [(e[2], e[3]) for e in revs if e[0] == 'T'], 'valid': ok, 'text_ok': True})
